@@ -74,7 +74,9 @@ def nproc():
 
 
 # ---- spec side -------------------------------------------------------------------------------------------------
-def write_cfg(ctx, name, dims, npoly, all1d, nrep, nrep3, full2d, interior, exset, exfull=True, laws=True):
+def write_cfg(ctx, name, dims, npoly, all1d, nrep, nrep3, full2d, interior, exset, exfull=True, laws=True,
+              histpos=False, bkind='none', akima=None):
+    """akima=(AkMod, AkRem): the configuration of the Akima-with-smoothing family (INIT InitAk) instead"""
     tb = lambda b: 'TRUE' if b else 'FALSE'      # noqa: E731
     txt = '''CONSTANTS
   Dims = {%s}
@@ -86,12 +88,17 @@ def write_cfg(ctx, name, dims, npoly, all1d, nrep, nrep3, full2d, interior, exse
   InteriorOnly = %s
   ExFull = %s
   ExSet = {%s}
-INIT Init
-NEXT Next
+  HistPos = %s
+  BKind = "%s"
+  AkMod = %d
+  AkRem = %d
 ''' % (', '.join(str(d) for d in dims), npoly, tb(all1d), nrep, nrep3, tb(full2d), tb(interior), tb(exfull),
-       ', '.join(tb(b) for b in exset))
+       ', '.join(tb(b) for b in exset), tb(histpos), bkind, akima[0] if akima else 1, akima[1] if akima else 0)
+    if akima:
+        return ctx.write_cfg(name, txt + 'INIT InitAk\nNEXT NextAk\nINVARIANT AkLaw\nINVARIANT ExportAk\n')
+    txt += 'INIT Init\nNEXT Next\n'
     if laws:
-        txt += ''.join('INVARIANT %s\n' % i for i in ('GridsOk', 'ErrorIff', 'NodeLaw', 'DerivLaw', 'HatLaw'))
+        txt += ''.join('INVARIANT %s\n' % i for i in ('GridsOk', 'ErrorIff', 'NodeLaw', 'DerivLaw', 'HatLaw', 'BLaw'))
     txt += 'INVARIANT Export\n'
     return ctx.write_cfg(name, txt)
 
@@ -168,6 +175,11 @@ def crosscheck(e):
         return
     if fr(o['v']) != poly_eval(s, x) or [fr(d) for d in o['d']] != poly_grad(s, x):
         raise MachineryError('spec / reference disagree on value or gradient: %s' % json.dumps(e)[:400])
+    if o.get('b'):
+        xb = [F(X, s['R']) for X in o['b']['X']]
+        if fr(o['b']['v']) != poly_eval(s, xb) or [fr(d) for d in o['b']['d']] != poly_grad(s, xb) or \
+                not all(s['g'][i][0] <= xb[i] <= s['g'][i][-1] for i in range(s['dim'])):
+            raise MachineryError('spec / reference disagree on the second point: %s' % json.dumps(e)[:400])
     if s['cls'] == 'lin':
         ref = [hat_ref(s['g'][i], x[i]) for i in range(s['dim'])]
         if [[fr(w) for w in ax] for ax in o['w']] != ref:
@@ -408,6 +420,210 @@ def check_group(item):
     return dict(cnt), dict(fails)
 
 
+# ---- histories of queries on one object (spec/mech/InterpHist.tla) --------------------------------------------------
+NEAR = 2.0 ** -20      # the nudge of point "An" (first axis); A is at least 1/4 away from every node
+HTOL = 1e-12           # a history-free object performs the same arithmetic: agreement up to round-off noise
+
+
+def write_hist_cfg(ctx, name, ops, near, hlen, discipline='exact_and_flag', laws=True):
+    txt = '''CONSTANTS
+  Ops = {%s}
+  WithNear = %s
+  HLen = %d
+  Discipline = "%s"
+INIT Init
+NEXT Next
+''' % (', '.join('"%s"' % o for o in ops), 'TRUE' if near else 'FALSE', hlen, discipline)
+    if laws:
+        txt += 'INVARIANT TypeOk\nINVARIANT CacheSound\nINVARIANT ReturnsRequested\n'
+    txt += 'INVARIANT Export\n'
+    return ctx.write_cfg(name, txt)
+
+
+def run_hist_tlc(ctx, ops, near, hlen, refute=True):
+    """-> the histories of InterpHist.tla (reference cache discipline, laws checked).  The two faulty disciplines
+    are run as well and TLC has to refute them (else the law has no teeth: machinery error)."""
+    cfg = write_hist_cfg(ctx, 'InterpHist.cfg', ops, near, hlen)
+    r = ctx.tlc_check('mech/InterpHist', cfg, workers=2, timeout=600, heap='2g')
+    ctx.require_actions(['Call'])
+    hists = r.exports('HIST')
+    nargs = 5 if near else 4
+    if len(hists) != (len(ops) * nargs) ** hlen:
+        raise MachineryError('InterpHist: %d histories exported, %d expected' % (len(hists), (len(ops) * nargs) ** hlen))
+    if refute:
+        for disc in ('point', 'close'):
+            if disc == 'close' and not near:
+                continue
+            cfg = write_hist_cfg(ctx, 'InterpHist_%s.cfg' % disc, ['val', 'valD', 'grad'], True, 2, disc)
+            rr = ctx.tlc_run('mech/InterpHist', cfg, workers=1, timeout=600, heap='2g')
+            if 'ReturnsRequested' not in rr.violated:
+                raise MachineryError('InterpHist: the faulty cache discipline %r is not refuted by ReturnsRequested:\n%s'
+                                     % (disc, rr.tail(30)))
+    return [[(c['op'], tuple(c['arg'])) for c in h] for h in hists]
+
+
+def hist_points(s, o):
+    a = [float(v) for v in point_of(s)]
+    b = [float(F(X, s['R'])) for X in o['b']['X']]
+    an = list(a)
+    an[0] += NEAR
+    return {'A': a, 'B': b, 'An': an}
+
+
+def do_call(it, op, X):
+    """one query -> ('ok', values or None, gradients (k, dim) or None) | ('exc', text); results are copies"""
+    import numpy as np
+    k, dim = X.shape
+    try:
+        if op == 'val':
+            return ('ok', np.array(it.interpolate(X.copy()), dtype=float).ravel(), None)
+        if op == 'valD':
+            v, d = it.interpolate(X.copy(), compute_derivative=True)
+            return ('ok', np.array(v, dtype=float).ravel(), np.array(d, dtype=float).reshape(k, dim))
+        return ('ok', None, np.array(it.gradient(X.copy()), dtype=float).reshape(k, dim))
+    except Exception as e:      # noqa: BLE001  (the kind of exception is the observation)
+        return ('exc', '%s: %s' % (type(e).__name__, str(e)[:120]))
+
+
+def hist_group(item):
+    """Replay every history on every applicable method of one scenario.  judge = 'val' (C15: returned values) or
+    'grad' (C16: returned gradients).  -> (counters, [(history, call index, method, via, observed, clause)])"""
+    import numpy as np
+    from ..util import quiet
+    quiet()
+    s, o, hists, judge, methods = item
+    dim, cls = s['dim'], s['cls']
+    table = table_of(s)
+    scale = float(np.max(np.abs(table)))
+    npts = [len(g) for g in s['g']]
+    P = hist_points(s, o)
+    exact = {'A': (float(fr(o['v'])), [float(fr(d)) for d in o['d']]),
+             'B': (float(fr(o['b']['v'])), [float(fr(d)) for d in o['b']['d']])}
+    bnode = all(p_['kd'] == 'node' for p_ in o['b']['pos'])
+    cnt = collections.Counter()
+    fails = []
+    calls = sorted(set(c for h in hists for c in h))
+    X = {arg: np.array([P[p_] for p_ in arg], dtype=float) for (_, arg) in calls}
+    tol = HTOL * (1.0 + scale)
+    for m in methods:
+        if applicable(m, s) != 'ok':
+            cnt['rejected_grid'] += 1
+            continue
+        repro = reproduced_degree(m, npts) >= DEG[cls]
+        # what a history-free object returns for each query
+        ref = {}
+        for (op, arg) in calls:
+            ref[(op, arg)] = do_call(make_interp(m, s, table, False), op, X[arg])
+            cnt['calls'] += 1
+            r = ref[(op, arg)]
+            if r[0] != 'ok':
+                continue
+            # ... is the spec's exact outcome where the method reproduces the table (at a node: every method)
+            for i, pid in enumerate(arg):
+                if pid not in exact:
+                    continue
+                if judge == 'val' and r[1] is not None and (repro or (pid == 'B' and bnode)):
+                    cnt['compared'] += 1
+                    if not close_exact(float(r[1][i]), exact[pid][0], scale):
+                        fails.append(([(op, arg)], 0, m, 'InterpND %s%s' % (op, list(arg)), float(r[1][i]),
+                                      'table value at a node' if (pid == 'B' and bnode) else
+                                      'polynomial of the reproduced class'))
+                if judge == 'grad' and r[2] is not None and repro and not (pid == 'B' and bnode):
+                    cnt['compared'] += 1
+                    if any(not close_exact(float(r[2][i][j]), exact[pid][1][j], scale) for j in range(dim)):
+                        fails.append(([(op, arg)], 0, m, 'InterpND %s%s' % (op, list(arg)), r[2][i].tolist(),
+                                      'G1: gradient w.r.t. the query point = exact gradient of the reproduced polynomial'))
+        for h in hists:
+            it = make_interp(m, s, table, False)
+            cnt['histories'] += 1
+            for k, (op, arg) in enumerate(h):
+                r = do_call(it, op, X[arg])
+                cnt['calls'] += 1
+                want = ref[(op, arg)]
+                if want[0] != 'ok':
+                    break          # the query itself is refused, history or not: nothing to say about histories
+                relevant = (judge == 'val' and op in ('val', 'valD')) or (judge == 'grad' and op in ('valD', 'grad'))
+                if r[0] != 'ok':
+                    if relevant:
+                        fails.append((h, k, m, 'InterpND %s%s' % (op, list(arg)), r,
+                                      'H: no error expected (the same query succeeds on a fresh object)'))
+                    break
+                if not relevant:
+                    continue
+                cnt['compared'] += 1
+                if judge == 'val':
+                    if float(np.max(np.abs(r[1] - want[1]))) > tol:
+                        fails.append((h, k, m, 'InterpND %s%s' % (op, list(arg)),
+                                      {'in_history': r[1].tolist(), 'fresh_object': want[1].tolist()},
+                                      'H: the value returned by a query depends on the queries made before'))
+                        break
+                else:
+                    if not np.all(np.isfinite(r[2])) or float(np.max(np.abs(r[2] - want[2]))) > tol:
+                        fails.append((h, k, m, 'InterpND %s%s' % (op, list(arg)),
+                                      {'in_history': r[2].tolist(), 'fresh_object': want[2].tolist()},
+                                      'H: the gradient returned by a query is not the gradient at the queried point '
+                                      '(it depends on the queries made before)'))
+                        break
+    return dict(cnt), fails
+
+
+def _hist_worker(chunk):
+    return [hist_group(it) for it in chunk]
+
+
+def hist_scenario(s, o, h, k):
+    scen = dict(s)
+    scen['x'] = [float(v) for v in point_of(s)]
+    scen['hist'] = [[op, list(arg)] for op, arg in h]
+    scen['hist_points'] = hist_points(s, o)
+    scen['failing_call'] = k
+    return scen
+
+
+def run_histories(ctx, pid, exports, hists, judge, methods_of):
+    """cross product (scenario x history) -> violations; returns counters"""
+    items = [(e['s'], e['o'], hists, judge, methods_of(e['s'])) for e in exports]
+    n = nproc()
+    order = sorted(range(len(items)), key=lambda i: -(3 ** items[i][0]['dim']))
+    idx_chunks = [c for c in ([i for i in order[k::n * 4]] for k in range(n * 4)) if c]
+    res = pmap(_hist_worker, [[items[i] for i in c] for c in idx_chunks], nproc=n)
+    tot = collections.Counter()
+    for ids, rs in zip(idx_chunks, res):
+        for i, (cnt, fails) in zip(ids, rs):
+            tot.update(cnt)
+            e = exports[i]
+            # one violation per (scenario, history, clause)
+            by = collections.OrderedDict()
+            for (h, k, m, via, obs, clause) in fails:
+                by.setdefault((tuple(h), k, clause), []).append((m, via, obs, clause))
+            for (h, k, clause), fs in by.items():
+                scen = hist_scenario(e['s'], e['o'], h, k)
+                scen['failing'] = [[f[0], f[1], f[2], f[3]] for f in fs]
+                ctx.violation(scen, e['o'], [[f[0], f[1], f[2]] for f in fs],
+                              '%s [%s] after %s' % (clause, ', '.join(sorted(set(f[0] for f in fs))),
+                                                    [list(c) for c in h[:k]]),
+                              snippet='replay with: ./check %s --replay <this file>' % pid)
+    return tot
+
+
+def replay_history(ctx, pid, rec, judge):
+    """./check Cnn --replay <file> for a stored history scenario"""
+    s, o = rec['scenario'], rec['expected']
+    base = {k: v for k, v in s.items() if k not in ('x', 'hist', 'hist_points', 'failing_call', 'failing')}
+    crosscheck({'s': base, 'o': o})
+    run_hist_tlc(ctx, ['val', 'valD', 'grad'], True, 2)
+    h = [(op, tuple(arg)) for op, arg in s['hist']]
+    cnt, fails = hist_group((base, o, [h], judge, methods_for(base['dim'])))
+    ctx.impl = 1
+    ctx.evaluations = cnt.get('calls', 0)
+    ctx.rule = 'replay of one stored query history'
+    ctx.sample({'replayed': ctx.replay, 'failures': [[f[2], f[3], f[4], f[5]] for f in fails]})
+    for f in fails:
+        scen = hist_scenario(base, o, f[0], f[1])
+        scen['failing'] = [[f[2], f[3], f[4], f[5]]]
+        ctx.violation(scen, o, [[f[2], f[3], f[4]]], rec['clause'])
+
+
 def build_items(groups, ctx, mm_every):
     rnd = random.Random(ctx.seed)
     items = []
@@ -465,6 +681,8 @@ def replay(ctx):
     cfg = write_cfg(ctx, 'InterpReplay.cfg', dims=[1], npoly=1, all1d=False, nrep=2, nrep3=1, full2d=False,
                     interior=False, exset=[True, False])
     run_tlc(ctx, cfg, timeout=600)
+    if 'hist' in s:
+        return replay_history(ctx, 'C15', rec, 'val')
     crosscheck({'s': s, 'o': o})
     item = build_items([(s, [{'s': s, 'o': o}])], ctx, 1)[0]
     cnt, fails = check_group(item)
@@ -523,7 +741,22 @@ def run(ctx):
                     ctx.violation(scen, e['o'], [[f[0], f[1], f[2]] for f in fs],
                                   '%s [%s]' % (clause, ', '.join(sorted(set(f[0] for f in fs)))),
                                   snippet='replay with: ./check C15 --replay <this file>')
-    ctx.impl = nscen
+    # ---- histories of queries on one object (InterpHist.tla x a reduced scenario base with a second point B) -------
+    hcfg = write_cfg(ctx, 'InterpHistBase.cfg', dims=[1, 2, 3], npoly=1, all1d=False, nrep=3 if quick else 5, nrep3=1,
+                     full2d=False, interior=True, exset=[False], histpos=True, bkind='node')
+    _, hexports = run_tlc(ctx, hcfg)
+    hists = run_hist_tlc(ctx, ['val', 'valD'], False, 2)
+    if not quick:
+        h3 = run_hist_tlc(ctx, ['val', 'valD'], False, 3, refute=False)
+        random.Random(ctx.seed).shuffle(h3)
+        hists = hists + h3[:128]
+    htot = run_histories(ctx, 'C15', hexports, hists, 'val', lambda s_: methods_for(s_['dim']))
+    for e in hexports:
+        ctx.note_nontrivial(json.dumps(['hist', e['s']['g'], e['s']['cls'], e['s']['pos']]))
+    tot.update(htot)
+    ctx.extra['history_scenarios'] = len(hexports)
+    ctx.extra['histories_per_scenario'] = len(hists)
+    ctx.impl = nscen + len(hexports) * len(hists)
     ctx.evaluations = tot['calls']
     ctx.exhaustive = True
     ctx.extra['counters'] = dict(tot)
